@@ -59,7 +59,7 @@ func (s *Sim) stepsDescr() any {
 		for _, h := range st.Resp.Headers {
 			hd[h[0]] = h[1]
 		}
-		out = append(out, map[string]any{"i": i, "now_ns": st.Now, "request": st.Req, "faults": st.Faults, "jwks_fail": st.JwksFail,
+		out = append(out, map[string]any{"i": i, "now_ns": st.Now, "request": st.Req, "faults": st.Faults, "jwks_fail": st.JwksFail, "redis_command_faults": st.CmdFaults,
 			"effects": strings.Join(effs, " "), "response": map[string]any{"class": st.Resp.Class, "code": st.Resp.Code, "http_status": st.Resp.Status, "headers": hd, "body": st.Resp.Body}})
 	}
 	return out
@@ -97,6 +97,9 @@ var cfgVariants = []cfgOpts{
 		CallbackURI: "http://app.test:80/cb%20x", ClientID: "c&3=?", Secret: "SECRET-x", AuthQuery: "tenant=t1&x=a%20b"},
 	{Prefix: "p_1", Access: true, Logout: true, Scopes: []string{"openid"}, IDHeader: "x-tok", IDPreamble: "ID", ATHeader: "x-tok", ATPreamble: "AT",
 		CallbackURI: "https://app.test:8443/callback", ClientID: "client-4", Secret: "SECRET-4"},
+	// endpoints, keys and end-session URI discovered; the discovered authorization endpoint has a query of its own
+	{Prefix: "d", Access: true, Logout: true, Scopes: []string{"openid", "profile"}, IDHeader: "authorization", IDPreamble: "Bearer", ATHeader: "x-access-token", ATPreamble: "",
+		CallbackURI: "https://app.test/oidc/cb", ClientID: "client-5", Secret: "SECRET-5", Discovery: true, AuthQuery: "p=b2c_1_signin"},
 }
 
 // genHistories runs n random histories and returns their Gallina cases and descriptions.
@@ -106,9 +109,14 @@ type histProfile struct {
 	Stores                []string
 	Timeouts              [][2]int
 	Browsers              int // >1: several browsers take turns (and the attacker mixes what it saw from all of them)
+	LogoutBoost           bool // more logouts, and requests with the logged-out cookie afterwards
 }
 
 func runHistories(c *Ctx, salt int64, p histProfile, each func(s *Sim) map[string]any) {
+	runHistoriesWith(c, salt, p, each, "run cases")
+}
+
+func runHistoriesWith(c *Ctx, salt int64, p histProfile, each func(s *Sim) map[string]any, runExpr string) {
 	perShard := 40
 	if c.Thorough() {
 		perShard = 120
@@ -129,6 +137,15 @@ func runHistories(c *Ctx, salt int64, p histProfile, each func(s *Sim) map[strin
 		for len(s.Steps) < n {
 			if p.Browsers > 1 && r.Intn(3) == 0 {
 				s.SwitchBrowser(r.Intn(p.Browsers))
+			}
+			if p.LogoutBoost && s.w.Cfg.GetLogout() != nil && s.Jar != "" && r.Intn(6) == 0 {
+				old := s.Jar
+				s.Visit("/logout")
+				for k := r.Intn(3); k >= 0; k-- { // replay the logged-out cookie
+					s.request(reqSpec{Scheme: "https", Host: s.AppHost, Path: pick(r, appPaths), Cookie: s.cookie(old)}, nil, false)
+				}
+				c.Hist("event_class", "logout+replay")
+				continue
 			}
 			cls := s.RandomStep(p.FaultRate, p.AttackRate)
 			c.Hist("event_class", cls)
@@ -155,6 +172,11 @@ func runHistories(c *Ctx, salt int64, p histProfile, each func(s *Sim) map[strin
 		if nt {
 			c.Distinct(key)
 		}
+		if len(w.LateMutations) > 0 {
+			c.Sum.GoFindings = append(c.Sum.GoFindings, Finding{Signature: c.Prop + "/answer-changed-after-it-was-returned",
+				What: "an answer already returned by a check changed while a later check was processed (responses share mutable state): " + w.LateMutations[0],
+				Replay: s.descr(map[string]any{"late_mutations": w.LateMutations})})
+		}
 		cases = append(cases, s.galHist())
 		d := s.descr(extra)
 		descr = append(descr, d)
@@ -163,11 +185,11 @@ func runHistories(c *Ctx, salt int64, p histProfile, each func(s *Sim) map[strin
 		}
 		w.Close()
 		if len(cases) == perShard {
-			c.WriteShard("Oidc.Types Corr.Hist Corr."+c.Prop, "hist", cases, descr)
+			c.WriteShardWith("Oidc.Types Corr.Hist Corr."+c.Prop, "hist", cases, descr, "", runExpr)
 			cases, descr = nil, nil
 		}
 	}
 	if len(cases) > 0 {
-		c.WriteShard("Oidc.Types Corr.Hist Corr."+c.Prop, "hist", cases, descr)
+		c.WriteShardWith("Oidc.Types Corr.Hist Corr."+c.Prop, "hist", cases, descr, "", runExpr)
 	}
 }
